@@ -109,6 +109,10 @@ def _import_categories(ctx: Ctx, f: FuncInfo) -> Set[str]:
     if not (isinstance(c, ast.Call) and c.args):
       continue
     fn = unparse(c.func)
+    if isinstance(c.func, ast.Attribute) and isinstance(
+        c.func.value, ast.Name) and not f.is_lambda:
+      # a local naming the import manager (`im = task.import_manager`)
+      fn = unparse(roles.deref(f, c.func.value)) + '.' + c.func.attr
     if not (fn.endswith('import_manager.add') or
             fn.endswith('import_manager_wrapper.add')):
       continue
@@ -147,7 +151,9 @@ def _name_sources(ctx: Ctx, f: FuncInfo, expr, depth=0) -> Set[str]:
     return out
   for n in ast.walk(expr):
     if isinstance(n, ast.Call):
-      out.add(unparse(n.func).rsplit('.', 1)[-1])
+      rq = ctx.p.resolve(n.func, f)  # through import aliases
+      out.add((rq if rq and rq in ctx.p.funcs else unparse(n.func)).rsplit(
+          '.', 1)[-1])
     if isinstance(n, ast.Name) and isinstance(n.ctx, ast.Load):
       for g in _scope_chain(ctx, f):
         hit = False
@@ -167,7 +173,49 @@ def _name_sources(ctx: Ctx, f: FuncInfo, expr, depth=0) -> Set[str]:
               out |= _name_sources(ctx, g, a, depth + 1)
         if hit:
           break
+        if n.id in g.params:
+          out.add(f'param:{g.qualname}:{n.id}')
+          break
   return out
+
+
+def _name_source_sets(ctx: Ctx, f: FuncInfo, expr, depth=0) -> List[Set[str]]:
+  """_name_sources per calling context: where the value flows in through a
+  parameter, one set for every call site of the function (each caller has to
+  supply what the rule asks for)."""
+  base = _name_sources(ctx, f, expr)
+  marks = sorted(x for x in base if x.startswith('param:'))
+  if not marks or depth > 2:
+    return [base]
+  owners = {m.split(':')[1] for m in marks}
+  sets = [base]
+  for oq in sorted(owners):
+    sites = []
+    for g in ctx.p.funcs.values():
+      if g.is_lambda and False:
+        continue
+      for c in ctx.calls(g):
+        if ctx.p.resolve(c.func, g) == oq:
+          sites.append((g, c))
+    if not sites:
+      continue
+    new_sets = []
+    for g, c in sites:
+      b = ctx.bound_args(c, g)
+      extra: List[Set[str]] = [set()]
+      for m in marks:
+        _, mq, name = m.split(':')
+        if mq != oq:
+          continue
+        if b is None or name not in b:
+          continue
+        subs = _name_source_sets(ctx, g, b[name], depth + 1)
+        extra = [e | s_ for e in extra for s_ in subs]
+      for cur in sets:
+        for e in extra:
+          new_sets.append(cur | e)
+    sets = new_sets
+  return sets
 
 
 def _expr_sources_text(f: FuncInfo, expr, depth=0) -> str:
@@ -914,8 +962,9 @@ def run(ctx: Ctx, rs: RuleSet, tier: str):
       continue
     for f in ctx.mod(modname).all_funcs:
       for c in ctx.calls(f):
-        if not (isinstance(c.func, ast.Name) and c.func.id == 'make_namer' and
-                len(c.args) == 1):
+        if not (isinstance(c.func, ast.Name) and len(c.args) == 1 and (
+            c.func.id == 'make_namer' or (not f.is_lambda and unparse(
+                roles.deref(f, c.func)) == 'make_namer'))):
           continue
         a = c.args[0]
         if not (isinstance(a, ast.Call) and unparse(a.func).endswith(
@@ -924,9 +973,10 @@ def run(ctx: Ctx, rs: RuleSet, tier: str):
                   f'`{unparse(c)[:70]}`: the namespace is not seeded with '
                   'the names already in scope', ctx.loc(f, c))
           continue
-        srcs = _name_sources(ctx, f, a.args[0])
         need = {'get_task_existing_names', 'get_fn_existing_names'}
-        missing = sorted(need - srcs)
+        src_sets = _name_source_sets(ctx, f, a.args[0])
+        missing = sorted({m for ss in src_sets for m in need - ss})
+        srcs = set.intersection(*src_sets)
         rs.check(not missing, rule, f'{f.qualname}:make_namer',
                  f'`{unparse(a)[:60]}` is seeded from {sorted(srcs & need)}'
                  if not missing else
